@@ -1,7 +1,7 @@
 #!/bin/sh
 # usage: tools/seeded.sh <Cxx> <worktree> [tier] [name]     (name: directory under seeded/, default <Cxx>)
 # Confirms a seeded change produced in a scratch worktree (suite passes with it, demo passes without / fails with it),
-# stores it under /verif/seeded/<id>/, runs ./check <Cxx> against it on /repo (apply, run, revert) and records the outcome.
+# stores it under /verif/seeded/<id>/, runs ./check <Cxx> against the changed tree (VERIF_REPO = the worktree) and records the outcome.
 ID=$1; WT=$2; TIER=${3:-quick}; NAME=${4:-$ID}
 DST=/verif/seeded/$NAME; mkdir -p $DST
 DEMO=$(ls $WT/demo*.py | head -1)
@@ -15,17 +15,17 @@ git apply -R $DST/patch.diff   # (git stash is shared between worktrees: never u
 timeout 300 /venv/bin/python $(basename $DEMO) > /tmp/seeded_demo_without.log 2>&1 < /dev/null; WITHOUT=$?
 git apply $DST/patch.diff
 echo "suite with change: $SUITE"; echo "demo with change: exit $WITH; without: exit $WITHOUT"
-git -C /repo diff --quiet || { echo "/repo dirty"; exit 2; }
-git -C /repo apply $DST/patch.diff || { echo "patch does not apply to /repo"; exit 2; }
-cd /verif && ./check $ID --tier $TIER > /tmp/seeded_check.log 2>&1; RC=$?
-git -C /repo checkout -- .
-NV=$(grep -c '^VIOLATION' /tmp/seeded_check.log)
-echo "check $ID $TIER on seeded change ($NAME): rc=$RC violations=$NV"; grep -A6 'violating cases by feature' /tmp/seeded_check.log | cut -c1-220; grep '^  ' /tmp/seeded_check.log | grep -v ' x ' | head -2 | cut -c1-300
+# the check runs against the scratch worktree itself (it holds /repo's tree plus the change): /repo is not touched
+LOG=$(mktemp /tmp/seeded_check_XXXXXX.log)
+cd /verif && VERIF_REPO=$WT ./check $ID --tier $TIER > $LOG 2>&1; RC=$?
+NV=$(grep -c '^VIOLATION' $LOG)
+echo "check $ID $TIER on seeded change ($NAME): rc=$RC violations=$NV"; grep -A6 'violating cases by feature' $LOG | cut -c1-220; grep '^  ' $LOG | grep -v ' x ' | head -2 | cut -c1-300
 python3 - <<PY
 import json
 json.dump({"property": "$ID", "suite_with_change": "$SUITE", "demo_exit_with_change": $WITH, "demo_exit_without_change": $WITHOUT,
            "check": "./check $ID --tier $TIER", "check_exit": $RC, "violation_lines": $NV,
-           "ran": ["pytest in scratch worktree with the change", "demo with and without the change (git stash)",
-                   "git -C /repo apply patch.diff; ./check $ID --tier $TIER; git -C /repo checkout -- ."]},
+           "ran": ["pytest in scratch worktree with the change", "demo with and without the change (git apply -R)",
+                   "./check $ID --tier $TIER against the tree with the change (VERIF_REPO=<scratch worktree>; first waves: git -C /repo apply, check, git -C /repo checkout -- .)"]},
           open("$DST/meta.json", "w"), indent=1)
 PY
+rm -f $LOG
